@@ -27,5 +27,6 @@ CONSTANTS
  MaxAdds = 4
  MCIds <- IdsP
  MCNames <- NamesAll
-INVARIANTS CtlSafety
+INVARIANTS CtlSafety CancelAtMostOnce
+PROPERTIES StopCancels
 CHECK_DEADLOCK FALSE
